@@ -810,7 +810,8 @@ func (e *Exec) rangeNext(itv Value, in *ssa.Next) Value {
 // goroutines, channels, select (sequential models)
 
 func (e *Exec) goStmt(fr *frame, in *ssa.Go) {
-	panic(unsupported{"go statement in " + fr.fn.String()})
+	// Goroutines are not modelled: the spawned call is recorded and not run (sequential kernels).
+	e.spawned = append(e.spawned, e.site(fr, in))
 }
 
 func (e *Exec) chanSend(fr *frame, cv Value, v Value) {
